@@ -36,8 +36,12 @@ func (s *Session) extraObligations(prop string) ([]*Obligation, error) {
 			out = append(out, s.jsonDiffObligation(prop))
 		}
 	}
-	if prop == "C15" {
-		out = append(out, s.planSummaryObligations()...)
+	if prop == "C15" || prop == "C13" {
+		// C13: the pseudonyms written into attr.planSummary have the stated form for every replacement text
+		for _, ob := range s.planSummaryObligations() {
+			ob.Props = []string{prop}
+			out = append(out, ob)
+		}
 	}
 	switch prop {
 	case "C20":
@@ -59,7 +63,7 @@ func (s *Session) planSummaryObligations() []*Obligation {
 		return &Obligation{Name: name, Fn: "redactFieldNamesFromPlanSummary", Kind: "bounded", Props: []string{"C15"}, Backend: "bounded-enumeration", Clause: bound}
 	}
 	plain := mk("bounded:redactFieldNamesFromPlanSummary/plain-names", "all plan summaries with 1..3 index keys (one or two IXSCAN stages) over the names zip, qty, uuu.www, _id, town, 9wk, plus COLLSCAN / IDHACK / EOF / empty: output equals the token-wise specification (every dotted component replaced by its pseudonym, nothing else touched)")
-	adv := mk("bounded:redactFieldNamesFromPlanSummary/names-that-are-substrings", "the same enumeration over the names a, b, IX, e1, a.b (names that are substrings of each other, of IXSCAN, or hex digits of a pseudonym)")
+	adv := mk("bounded:redactFieldNamesFromPlanSummary/names-that-are-substrings", "the same enumeration over the names a, b, IX, e1, a.b (names that are substrings of each other, of IXSCAN, or hex digits of a pseudonym), and over a, IX, a.b, zip under the replacement texts US$, $1, ${1}x, %s, a\\b, <r e d>")
 	if err != nil {
 		plain.Result, plain.Raw = "error", err.Error()
 		adv.Result, adv.Raw = "error", err.Error()
